@@ -104,3 +104,23 @@ package directory
 //@   loop 1:
 //@     invariant s.mutex.lockw && s.services == at_lock(s.services) && s.staging == at_lock(s.staging)
 //@     invariant forall k uint32 {visited#1(k)} :: visited#1(k) ==> has(s.services, k) && s.services[k].Name != service
+
+// Generated service-info decoder (C07, C08).
+//@ func readServiceInfo$1() (b []string, err error)
+//@   tags C07 C08
+//@   decoder r
+//@   ensures err == nil ==> r.pos >= old(r.pos) + 4
+//@   loop 1:
+//@     invariant 0 <= i && i <= size && r.pos >= old(r.pos) + 4 + 4 * i && r.pos <= r.len && r != nil && fresh(b) && oldarrays_unchanged(b)
+//@     invariant (r.short ==> old(r.short)) && (old(r.short) ==> r.short)
+//@     decreases size - i
+//@     progress r.pos
+//@ func readServiceInfo(r io.Reader) (s ServiceInfo, err error)
+//@   tags C07 C08
+//@   decoder r
+//@   ensures err == nil ==> r.pos >= old(r.pos) + 28
+//@   ensures[C08] old(r.len) - old(r.pos) < 28 ==> err != nil
+//@ func ReadServiceInfo(r io.Reader) (s ServiceInfo, err error)
+//@   tags C07 C08
+//@   decoder r
+//@   ensures[C08] old(r.len) - old(r.pos) < 28 ==> err != nil
